@@ -46,6 +46,30 @@ func Run(c *hx.Ctx) {
 		initEnv()
 		runH2GoAway(c)
 	}
+	if only == "" || only == "lookup" {
+		initEnv()
+		for i := range fixedTL {
+			runTL(c, &fixedTL[i])
+		}
+		for i := 0; i < c.N(150, 500); i++ {
+			runTL(c, nil)
+		}
+		for _, t := range fixedTF {
+			runTF(c, t)
+		}
+		for i := 0; i < c.N(30, 90); i++ {
+			runTF(c, genTF(c, i))
+		}
+	}
+	if only == "" || only == "vl" {
+		initEnv()
+		for _, g := range fixedVL {
+			runVL(c, g)
+		}
+		for i := 0; i < c.N(12, 30); i++ {
+			runVL(c, genVL(c, i))
+		}
+	}
 	if only == "" || only == "up" {
 		// boundary replayed on every run: inherited bytes that fill the new read buffer exactly (minimised past failure)
 		runUP(c, upCase{half: 64, idle: 1, wait: 0, h1: 0})
